@@ -104,6 +104,7 @@ func (c *BadCase) Exec(t *eng.T) {
 // ---- model ----
 
 type def struct {
+	empty  bool // a definition with a completely empty body: it still is the definition that counts
 	super  bool
 	nested string // name of a NEW block introduced inside this definition ("" = none)
 	loopI  bool   // prints {{ i }} (block lives in a for body)
@@ -141,6 +142,9 @@ func superRef(form int, parent string) string {
 
 func (d *def) src(name string, lv int, form int, nestedBody func(string) string) string {
 	var b strings.Builder
+	if d.empty {
+		return fmt.Sprintf("{%% block %s %%}{%% endblock %%}", name)
+	}
 	fmt.Fprintf(&b, "{%% block %s %%}%s%d", name, name, lv)
 	if d.loopI {
 		b.WriteString("{{ i }}")
@@ -235,6 +239,9 @@ func (c *chain) render(j int) string {
 		lv := ds[k]
 		d := c.levels[lv].defs[name]
 		var b strings.Builder
+		if d.empty {
+			return ""
+		}
 		fmt.Fprintf(&b, "%s%d", name, lv)
 		if d.loopI {
 			b.WriteString(i)
@@ -306,10 +313,11 @@ func run(r *eng.Runner) {
 		formDepth = 4
 	}
 	shapes := []string{"top", "nested", "if", "if-false", "for"}
-	r.Group("chains", "c10.case", fmt.Sprintf("all inheritance chains with 0..%d children (every option for every block up to depth %d, deeper levels vary block a and nested blocks only) over 5 base shapes (block at top level, nested in a block, in a true/false if branch, in a for body); per level every known block is absent / redefined / redefined with block.Super (chains of <=%d templates also with Super printed twice in one definition and with Super tested by an if), block a may introduce a new nested block; junk outside blocks; every template of the chain rendered, the base again after its children were compiled", maxChildren, wide, formDepth))
+	r.Group("chains", "c10.case", fmt.Sprintf("all inheritance chains with 0..%d children (every option for every block up to depth %d, deeper levels vary block a and nested blocks only) over 5 base shapes (block at top level, nested in a block, in a true/false if branch, in a for body); per level every known block is absent / redefined / redefined with block.Super (block b also: redefined with an empty body) (chains of <=%d templates also with Super printed twice in one definition and with Super tested by an if), block a may introduce a new nested block; junk outside blocks; every template of the chain rendered, the base again after its children were compiled", maxChildren, wide, formDepth))
 	type opt struct {
 		present, super bool
 		nested         bool
+		empty          bool
 	}
 	wide0 := wide
 	for _, shape := range shapes {
@@ -361,6 +369,9 @@ func run(r *eng.Runner) {
 			opts := make([][]opt, len(known))
 			for i, n := range known {
 				opts[i] = []opt{{}, {present: true}, {present: true, super: true}}
+				if n == "b" && lv <= wide {
+					opts[i] = append(opts[i], opt{present: true, empty: true}) // blanking an inherited block
+				}
 				if lv > wide {
 					if n == "a" {
 						opts[i] = []opt{{present: true}, {present: true, super: true}}
@@ -388,7 +399,7 @@ func run(r *eng.Runner) {
 							continue
 						}
 						any = true
-						d := &def{super: o.super, loopI: shape == "for" && (n == "a" || strings.HasPrefix(n, "n"))}
+						d := &def{empty: o.empty, super: o.super, loopI: shape == "for" && (n == "a" || strings.HasPrefix(n, "n"))}
 						if o.nested {
 							nn := fmt.Sprintf("n%d", lv)
 							d.nested = nn
